@@ -703,6 +703,16 @@ void verif::verif_case(Rng & rng, long idx, const std::string & tier) {
     if (which == 2) { if (ugly) { S = std::min<size_t>(S, 3); h = std::min(h, 2u); } else if (S == 4) h = std::min(h, 3u); }
     auto pt = ugly ? uglyPomdp(rng, S, A, O) : randomPomdp(rng, S, A, O);
     if (ugly) std::printf("#stat ugly 1\n");
+    // large / tiny / offset magnitudes (powers of two keep the dyadic tables exact): the tolerance comparisons (dominates, the
+    // Projecter's cut, findBestAtPoint ties) and the checker's relative-or-absolute test see values far from 1.  Not for the
+    // LP-driven agenda loops of Witness / LinearSupport (their running time on such inputs is not this property's subject).
+    if (which != 1 && which != 2 && rng.coin(1, 6)) {
+        int k = rng.coin() ? 20 : (rng.coin() ? -20 : 10);
+        if (k < 0 && sparse == 1) sparse = 0;      // SparseModel's converting constructor drops rewards <= 1e-6 by design: it would not be the POMDP the line states
+        double off = rng.coin(1, 3) ? std::ldexp(1.0, k + 6) : 0.0;
+        pt.R = pt.R * std::ldexp(1.0, k) + AIToolbox::Matrix2D::Constant(pt.R.rows(), pt.R.cols(), off);
+        std::printf("#stat reward_scale:2^%d%s 1\n", k, off != 0.0 ? "+offset" : "");
+    }
     double tol = (rng.coin(1, 8)) ? 0.5 : 0.0;                                // early stop on tolerance: shorter value function
     // point-based solvers on a SPARSE support (fewer beliefs than |S|+1) over many horizons: backups may regress there
     size_t fewBeliefs = 0;
